@@ -30,6 +30,7 @@ type Obligation struct {
 	relaxed  bool // cover check re-run without quantified facts
 	ctx      *Ctx
 	results  []Value // result values of the return this obligation belongs to (postconditions)
+	Raw      string  // complete query text (key-template lemmas): used as it stands, "unsat" = holds
 }
 
 type InputSym struct {
@@ -351,6 +352,9 @@ const axU32 = "(assert (forall ((x (_ BitVec 32))) (! (= (u32le_inv (u32le x)) x
 
 
 func (c *Ctx) buildQuery(o *Obligation, withModel bool) string {
+	if o.Raw != "" {
+		return o.Raw
+	}
 	var sb strings.Builder
 	body := c.queryBody(o)
 	quant := strings.Contains(body, "(forall ") || strings.Contains(body, "(exists ") || strings.Contains(body, "define-fun-rec")
